@@ -139,6 +139,7 @@ class CaseTimeout(BaseException):
 CASE_TIMEOUT = float(os.environ.get("VERIF_CASE_TIMEOUT", "90"))          # CPU seconds
 CASE_WALL_BACKSTOP = float(os.environ.get("VERIF_CASE_WALL", "1500"))      # wall-clock seconds
 MAX_HANGS = 2
+MAX_CRASHES = 25
 _hang = {"fired": False}
 
 
@@ -164,9 +165,20 @@ def guarded_observe(mod, ctx, inp):
     old_r = signal.signal(signal.SIGALRM, _alarm)
     signal.setitimer(signal.ITIMER_PROF, CASE_TIMEOUT)
     signal.setitimer(signal.ITIMER_REAL, CASE_WALL_BACKSTOP)
+    _hang["crash"] = None
     try:
         case = mod.observe(ctx, inp)
     except CaseTimeout:
+        case = None
+    except (KeyboardInterrupt, SystemExit, MemoryError):
+        raise
+    except BaseException as ex:       # DesignError derives from BaseException
+        # The runner wraps every call that may raise on the unchanged tree (observe_call); an exception that escapes comes from a
+        # call that cannot raise there.  It must end in a VIOLATION line with this input as the replay, not in a check that dies.
+        import traceback
+        tb = traceback.format_exc()
+        _hang["crash"] = f"{type(ex).__name__}: {ex}"[:600] + " | " + " <- ".join(
+            l.strip() for l in tb.splitlines() if l.strip().startswith("File ") )[-900:]
         case = None
     finally:
         signal.setitimer(signal.ITIMER_PROF, 0)
@@ -469,6 +481,7 @@ class Check:
         lines, kept = [], []
         streams = {}
         hangs = []
+        crashes = []
         for stream, inp in inputs:
             if deadline is not None and time.time() > deadline:
                 break
@@ -477,6 +490,12 @@ class Check:
                 hangs.append((stream, inp, "", "", f"the implementation did not return within {CASE_TIMEOUT:.0f}s of CPU time on this input "
                               "(non-termination or a pathological slowdown; the unchanged tree answers every case in a fraction of that)"))
                 if len(hangs) >= MAX_HANGS:
+                    break
+                continue
+            if case is None and _hang.get("crash"):
+                crashes.append((stream, inp, "", "", "the implementation raised where the unchanged code cannot (the call is not one the runner "
+                                "observes for exceptions, so the observation could not be completed): " + _hang["crash"]))
+                if len(crashes) >= MAX_CRASHES:
                     break
                 continue
             if case is None:
@@ -490,8 +509,8 @@ class Check:
         distinct = set()
         trivial = set(getattr(mod, "TRIVIAL_BRANCHES", [0]))
         samples = []
-        first_viol, first_corr = list(hangs), []
-        tally["viol"] += len(hangs)
+        first_viol, first_corr = list(hangs) + list(crashes[:3]), []
+        tally["viol"] += len(hangs) + len(crashes)
         for (stream, inp), line, ans in zip(kept, lines, answers):
             a = sx_parse(ans)
             v, br = a[0], a[1] if len(a) > 1 else 0
@@ -678,6 +697,10 @@ class Check:
         if hung:
             print("input   :", describe(self.mod, data["input"]))
             print(f"verdict : VIOLATION (the implementation did not return within {CASE_TIMEOUT:.0f}s of CPU time)")
+            return 1
+        if case is None and _hang.get("crash"):
+            print("input   :", describe(self.mod, data["input"]))
+            print("verdict : VIOLATION (the implementation raised where the unchanged code cannot):", _hang["crash"])
             return 1
         line = sx_dump(case)
         ans = run_judge(self.prop, [line])[0]
